@@ -81,9 +81,14 @@ class Driver:
         self.idx = {c["name"]: i for i, c in enumerate(cat, 1)}
         self.calls = 0
 
-    def event(self, a, name, p, neg=False, e=None, vin=None, closes=False, rset=None, sd_built=None):
-        """one call on the real code -> event"""
+    def event(self, a, name, p, neg=False, e=None, vin=None, closes=False, rset=None, sd_built=None, form="float"):
+        """one call on the real code -> event.  `form`: how the three coordinates are handed over - Python floats (default), Python
+        ints, numpy int64 / float64 scalars (whole-metre coordinates: the same numbers, so the same oracle; round 9, C06-r9-1)"""
         np, gc, tf = self.np, self.gc, self.tf
+        if form != "float":
+            if any(float(v) != int(v) for v in p):
+                raise tlc.MachineryError("form %s needs whole-metre coordinates" % form)
+            p = [{"int": int, "npint": np.int64, "npfloat": np.float64}[form](int(v)) for v in p]
         if rset is None:
             trans = getattr(gc, name)
             if neg:
@@ -94,7 +99,7 @@ class Driver:
             ev = {"idx": 0, "p14": p14, "ep": ep}
         ev.update({"a": a, "neg": bool(neg), "e": e.toordinal() if e else 0, "in": vec(p), "inhex": hx(*p),
                    "out": vec([0, 0, 0]), "outhex": "", "refhex": "", "vin": [] if vin is None else mat(vin), "vout": [],
-                   "sd": sd_built if sd_built is not None else sd7(gc, trans), "closes": bool(closes), "exc": "", "name": name or "random"})
+                   "sd": sd_built if sd_built is not None else sd7(gc, trans), "closes": bool(closes), "exc": "", "name": name or "random", "form": form})
         try:
             self.calls += 1
             if a == "C7":
@@ -212,6 +217,30 @@ def traces_c06(drv, rnd, quick):
             e2, _ = drv.event("C7", None, list(o), rset=(-t, [fix.enc(-fix.dec(x)) for x in p14], ep), closes=True)
             evs.append(e2)
         traces.append({"kind": "random_pair", "ev": evs})
+    traces += traces_forms(drv, rnd, quick, "C7")
+    return traces
+
+
+def traces_forms(drv, rnd, quick, a):
+    """the same calls with the coordinates in another legal FORM: whole-metre coordinates as Python ints, numpy int64 and numpy
+    float64 scalars, in every octant, shipped sets with the largest rotations and random sets (also at the limits), with and
+    without a covariance - the formula is the same, only the type of x, y, z differs (an integer work array truncates the result)"""
+    np = drv.np
+    traces = []
+    forms = ["int", "npint", "npfloat"]
+    big = [n for n in ("agd66_to_gda94", "agd84_to_gda94", "gda94_to_gda2020", "itrf2014_to_gda2020", "atrf2014_to_gda2020",
+                       "itrf2008_to_gda94") if n in drv.idx]
+    for k in range(18 if quick else 240):
+        form = forms[k % 3]
+        mag = [6.4e6, 5.0e7, 2.0e7, 1234.0][(k // 3) % 4]
+        p = [int(rnd.uniform(0.3, 1.0) * mag) * (1 if ((k // 3) >> b) & 1 else -1) for b in range(3)]
+        if k % 2 == 0 and big:
+            e1, _ = drv.event(a, big[(k // 2) % len(big)], p, form=form)
+        else:
+            rs = drv.random_set(rnd, False, limits=(k % 4 == 1))
+            vin = psd_inputs(np, rnd)[k % 5] if k % 3 == 1 else None
+            e1, _ = drv.event(a, None, p, rset=rs, form=form, vin=vin)
+        traces.append({"kind": "forms", "ev": [e1]})
     return traces
 
 
@@ -266,6 +295,8 @@ def describe(tr, l, clause):
         d["call"] = ev["a"]
         if ev["idx"]:
             d["set"] = ev["name"]
+        if ev.get("form", "float") != "float":
+            d["form"] = ev["form"]
     return d
 
 
